@@ -80,7 +80,7 @@ def trace_local(body, l, depth=0):
         op = rv['op']
         c = op_const(op)
         if c is not None:
-            return {'k': 'const', 'c': c}
+            return describe_operand(body, op, depth + 1)
         p = op_place(op)
         if isinstance(p, int):
             return trace_local(body, p, depth + 1)
@@ -124,6 +124,14 @@ def callee_name(term):
 def describe_operand(body, op, depth=0):
     c = op_const(op)
     if c is not None:
+        if 'promoted' in c and body.promoted and c['promoted'] < len(body.promoted) and depth < 10:
+            # a promoted constant (e.g. &CONST, &[..]): describe the value its tiny body computes
+            pb = body.promoted[c['promoted']]
+            d = trace_local(pb, 0, depth + 1)
+            if d['k'] not in ('unknown', 'multi'):
+                d = dict(d)
+                d['promoted_body'] = pb
+                return d
         return {'k': 'const', 'c': c}
     p = op_place(op)
     if p is None:
@@ -142,11 +150,17 @@ PASS_THROUGH = (
 )
 
 
+import re as _re
+PASS_RX = _re.compile(r'::(as_bytes|to_vec|into_bytes|as_slice|to_string|to_owned|as_str)$')
+
+
 def strip_calls(body, d, depth=0):
     """skip through deref/clone/as_str style calls to the first argument's origin"""
     while d['k'] == 'call' and depth < 12:
         f = d['term'].get('f')
-        if not f or f['d'] not in PASS_THROUGH or not d['term']['args']:
+        if not f or not d['term']['args']:
+            break
+        if f['d'] not in PASS_THROUGH and not PASS_RX.search(f['d']):
             break
         d = describe_operand(body, d['term']['args'][0], depth + 1)
         depth += 1
